@@ -100,9 +100,6 @@ def eyeTable (k : Int) (hchunks : List Nat) : Nat → List Nat → List (List (B
   | _, [] => []
   | rowStart, v :: vs => eyeRow v rowStart k 0 hchunks :: eyeTable k hchunks (rowStart + v) vs
 
-/-- start offset of block `b` -/
-def blockStart (cs : List Nat) (b : Nat) : Nat := sum (cs.take b)
-
 /-- element `(r, c)` of the assembled array -/
 def eyeDen (vchunks hchunks : List Nat) (k : Int) (r c : Nat) : Option Nat := do
   let (bi, ro) ← blockOf vchunks r
@@ -120,6 +117,60 @@ def diagDen {α} [Inhabited α] (zero : α) (cs : List Nat) (xs : List α) (r c 
     let blk := (splitBy cs xs).getD bi []
     pure (if ro = co then blk.getD ro zero else zero)
   else pure zero
+
+/-! ### `diagonal` of a 2-d array (axis1 = 0, axis2 = 1): following the k-diagonal through the chunks -/
+
+/-- one task: `np.diagonal(block (I, J), k)` producing `len` elements -/
+structure DSeg where
+  I : Nat
+  J : Nat
+  k : Int
+  len : Int
+  deriving Repr, DecidableEq
+
+/-- the `while kdiag_row_start < a.shape[axis1] and kdiag_col_start < a.shape[axis2]` loop.
+    `r`, `c` = global `kdiag_row_start`, `kdiag_col_start`; `none` = IndexError / fuel exhausted. -/
+def diagLoop (rch cch : List Nat) (N M : Nat) : Nat → Int → Int → Nat → Nat → Option (List DSeg)
+  | 0, r, c, _, _ => if r < N ∧ c < M then none else some []
+  | fuel + 1, r, c, I, J =>
+    if ¬ (r < N ∧ c < M) then some [] else do
+      let nrows ← rch[I]?
+      let ncols ← cch[J]?
+      let lr : Int := r - blockStart rch I       -- kdiag_row_start -= row_starts[I]
+      let lc : Int := c - blockStart cch J
+      let k : Int := if lr > 0 then -lr else lc
+      let rowEnd : Int := min (nrows : Int) ((ncols : Int) - k)
+      let len : Int := rowEnd - lr
+      let r' : Int := rowEnd + blockStart rch I
+      let c' : Int := min (ncols : Int) ((nrows : Int) + k) + blockStart cch J
+      let I' := if r' = ((blockStart rch I + nrows : Nat) : Int) then I + 1 else I
+      let J' := if c' = ((blockStart cch J + ncols : Nat) : Int) then J + 1 else J
+      let rest ← diagLoop rch cch N M fuel r' c' I' J'
+      pure (⟨I, J, k, len⟩ :: rest)
+
+/-- `diagonal(a, offset=k)` for a 2-d array chunked `(rch, cch)`: the segments, or `some []` for an empty diagonal -/
+def diagonalPlan (rch cch : List Nat) (k : Int) : Option (List DSeg) :=
+  let N := sum rch
+  let M := sum cch
+  let r0 : Int := max 0 (-k)
+  let c0 : Int := max 0 k
+  let rowStop : Int := min (N : Int) ((M : Int) - k)
+  if rowStop - r0 ≤ 0 then some []
+  else
+    match blockOf rch r0.toNat, blockOf cch c0.toNat with
+    | some (I, _), some (J, _) => diagLoop rch cch N M (N + M) r0 c0 I J
+    | _, _ => none
+
+
+/-- global positions `np.diagonal(block (I, J), k)` reads: it starts at local `(max 0 (-k), max 0 k)` -/
+def segPoints (rch cch : List Nat) (s : DSeg) : List (Int × Int) :=
+  (List.range s.len.toNat).map (fun (t : Nat) =>
+    ((blockStart rch s.I : Int) + max 0 (-s.k) + t, (blockStart cch s.J : Int) + max 0 s.k + t))
+
+/-- the number of elements `np.diagonal` of an `nrows × ncols` block returns for offset `k` -/
+def npDiagLen (nrows ncols : Nat) (k : Int) : Int := max 0 (min ((nrows : Int) - max 0 (-k)) ((ncols : Int) - max 0 k))
+
+def diagPoints (r c : Int) (L : Nat) : List (Int × Int) := (List.range L).map (fun (t : Nat) => (r + t, c + t))
 
 /-! ### tri: `arange(N)[:, None] >= arange(-k, M-k)[None, :]` -/
 def triSpec (k : Int) (i j : Nat) : Bool := decide ((j : Int) - k ≤ (i : Int))
